@@ -71,6 +71,8 @@ func c09Alphabet() []mwOp {
 		{K: "handle", Via: "R", P: "", Ms: []string{"GET"}, Route: []string{"M1"}},
 		{K: "handle", Via: "R", P: "", Ms: []string{"POST"}},
 		{K: "handle", P: "/x/{id}"},
+		{K: "handle", Via: "P2", P: "/any", Route: []string{"M1"}}, // Prefix.Any below a nested prefix
+		{K: "handle", Via: "R", P: ""},                              // Resource.Any
 		{K: "handle", Via: "P1", P: "/y", Ms: []string{"POST", "PUT"}, Route: []string{"M1", "M2", "M3"}},
 		{K: "remove", P: "/x"},
 		{K: "remove", P: "/x", Ms: []string{"GET"}},
@@ -253,15 +255,53 @@ func (s *c09Sys) apply(o mwOp) (any, bool) {
 		case "use":
 			s.r.Use(spare(s.log, o.Use)...)
 		case "handle":
+			// through the shorthand entry point when the method list has one (Any/Get/Post), else Handle
+			short := ""
+			switch {
+			case len(o.Ms) == 0:
+				short = "any"
+			case len(o.Ms) == 1 && (o.Ms[0] == "GET" || o.Ms[0] == "POST"):
+				short = o.Ms[0]
+			}
+			m := s.route(o.Route)
 			switch o.Via {
 			case "":
-				s.r.Handle(o.P, h, s.route(o.Route), o.Ms...)
-			case "P1":
-				s.p1.Handle(o.P, h, s.route(o.Route), o.Ms...)
-			case "P2":
-				s.p2.Handle(o.P, h, s.route(o.Route), o.Ms...)
+				switch short {
+				case "any":
+					s.r.Any(o.P, h, m...)
+				case "GET":
+					s.r.Get(o.P, h, m...)
+				case "POST":
+					s.r.Post(o.P, h, m...)
+				default:
+					s.r.Handle(o.P, h, m, o.Ms...)
+				}
+			case "P1", "P2":
+				p := s.p1
+				if o.Via == "P2" {
+					p = s.p2
+				}
+				switch short {
+				case "any":
+					p.Any(o.P, h, m...)
+				case "GET":
+					p.Get(o.P, h, m...)
+				case "POST":
+					p.Post(o.P, h, m...)
+				default:
+					p.Handle(o.P, h, m, o.Ms...)
+				}
 			case "R":
-				s.res.Handle(h, s.route(o.Route), o.Ms...)
+				switch short {
+				case "any":
+					s.res.Any(h, m...)
+				case "GET":
+					s.res.Get(h, m...)
+				case "POST":
+					s.res.Post(h, m...)
+				default:
+					s.res.Handle(h, m, o.Ms...)
+				}
 			}
 		case "remove":
 			switch o.Via {
